@@ -2,7 +2,9 @@
 //! and records what it observes.  It never judges beyond comparing with the expectation carried by the case.
 
 mod conv;
+mod jets;
 mod layout;
+mod prog;
 
 use std::io::{BufRead, BufReader, BufWriter, Write};
 use std::panic::{catch_unwind, AssertUnwindSafe};
@@ -27,6 +29,7 @@ fn handle(case: &J) -> J {
     let res = catch_unwind(AssertUnwindSafe(|| match kind.as_str() {
         "layout_type" => layout::layout_type(case),
         "layout_val" => layout::layout_val(case),
+        "prog" => prog::prog(case),
         _ => Err(format!("unknown case kind {kind}")),
     }));
     let mut out = match res {
@@ -94,6 +97,12 @@ fn main() {
                 .and_then(|s| s.parse().ok())
                 .unwrap_or(12usize);
             replay(&args[2], &args[3], threads)
+        }
+        Some("jets") => {
+            for j in jets::dump() {
+                println!("{j}");
+            }
+            Ok(())
         }
         _ => Err("usage: vh replay <cases.ndjson> <results.ndjson> [threads]".to_string()),
     };
